@@ -253,7 +253,16 @@ def make_cp_class(version, routes):
             specs[h["name"]] = dict(h, action=r["action"])
     cls = type("ScriptedCP", (base,), ns)
     cls._ov_specs = specs
+    # every other endpoint class gets its routes by INHERITANCE (application base class with the handlers, the class
+    # that is instantiated adds nothing, two levels below the library's ChargePoint): the route map is the same
+    _LEVELS["n"] += 1
+    if _LEVELS["n"] % 2:
+        cls = type("ScriptedMid", (cls,), {})
+        cls = type("ScriptedLeaf", (cls,), {})
     return cls
+
+
+_LEVELS = {"n": 0}
 
 
 def observe_frame(version, routes, raw, async_validation=False, settle=3, send_ok=True, cls=None, prelude=None, send_style=None):
